@@ -274,6 +274,24 @@ class Oracle:
         if op == "copy":
             x = A.get(t[2])
             return ("arr", Ref(list(x.dims), dict(x.data))) if x else None
+        if op == "stack":
+            nd = self.dims.get(t[2])
+            xs = [A.get(h) for h in t[3:]]
+            if nd is None or any(x is None for x in xs) or not xs:
+                return None
+            first = xs[0]
+            if nd[0] in first.letters or len(xs) > len(nd[3]):
+                return None
+            if any(sorted(x.letters) != sorted(first.letters) for x in xs):
+                return None
+            r = Ref(list(first.dims) + [nd], {})
+            for lab in r.labels():
+                k = nd[3].index(lab[-1])
+                if k < len(xs):
+                    r.data[lab] = xs[k].data[project(lab[:-1], first.letters, xs[k].letters)]
+                else:
+                    r.data[lab] = Fraction(0)
+            return ("arr", r)
         if op == "getitem":
             x = A.get(t[2])
             if x is None:
@@ -428,6 +446,25 @@ class Oracle:
         return ("arr", new)
 
 
+def split_expect(orc, t):
+    """split(dim): one slice per item of that dimension, under its true labels"""
+    x = orc.arrs.get(t[1])
+    if x is None:
+        return None
+    ds = [d for d in x.dims if d[0] == t[2] or d[1] == t[2]]
+    if not ds:
+        return ("err",)
+    d = ds[0]
+    i = x.dims.index(d)
+    parts = []
+    for it in d[3]:
+        r = Ref([q for q in x.dims if q != d], {})
+        for lab in r.labels():
+            r.data[lab] = x.data[lab[:i] + (it,) + lab[i:]]
+        parts.append(f"{it} {r.fmt()}")
+    return ("text", " ;; ".join(parts))
+
+
 def check_case(case_lines, impl_outputs):
     """returns None or a dict describing the first operation on which the implementation's
     observation contradicts the property"""
@@ -435,7 +472,7 @@ def check_case(case_lines, impl_outputs):
     orc = Oracle()
     for ln, got in zip(case_lines, impl_outputs):
         try:
-            exp = orc.step(ln)
+            exp = split_expect(orc, ln.split(" ")) if ln.startswith("split ") else orc.step(ln)
         except Exception:
             exp = None
         if exp is None:
@@ -443,6 +480,9 @@ def check_case(case_lines, impl_outputs):
         if exp[0] == "err":
             if got != "err":
                 return {"line": ln, "expected": "an error (the property demands a refusal)", "observed": got}
+        elif exp[0] == "text":
+            if not lines_equal("ok " + exp[1], got):
+                return {"line": ln, "expected": "ok " + exp[1], "observed": got}
         else:
             want = "ok " + exp[1].fmt()
             if not lines_equal(want, got):
